@@ -376,7 +376,7 @@ class Builder(object):
         # process last line read as either only line or continuation line
         line = line.rstrip()
         saveLineViews.append("%04d %s" % (self.currentCount, line))
-        saveLines.append(line)
+        saveLines.append(line.strip())
 
         # join all saved into one line
         lineView = "\n".join(saveLineViews)
